@@ -31,6 +31,7 @@ PROBES = [
     ("unnamedFixed", "F6", "package w\n\nvar F func(int, string) int\n\nvar W = deriveCurry(F)\n"),
     ("shadowFixed", "F6", "package w\n\nvar F func(f int, b string) int\n\nvar W = deriveCurry(F)\n"),
     ("crossFixed", "F6", "package w\n\nvar F func(a int) func(a string) int\n\nvar W = deriveUncurry(F)\n"),
+    ("voidFixed", "F18", "package w\n\nvar F func(a int, b string)\n\nvar W = deriveCurry(F)\n"),
     ("zeroFixed", "F5", "package w\n\ntype NI int\ntype S struct{ A int }\n\n"
      "func F0(a int) (NI, error) { return 0, nil }\n"
      "func F1(a NI) (S, [2]int, NI, error) { return S{}, [2]int{}, 0, nil }\n\nvar W = deriveCompose(F0, F1)\n"),
@@ -39,11 +40,12 @@ PROBES = [
 ]
 
 # reason reported by the model for a wrapper that does not compile -> finding id
-WHY_FINDING = {"unnamed": "F6", "shadow": "F6", "dup": "F6", "zero": "F5", "emptylhs": "F5"}
+WHY_FINDING = {"unnamed": "F6", "shadow": "F6", "dup": "F6", "void": "F18", "zero": "F5", "emptylhs": "F5"}
 WHY_TEXT = {
     "unnamed": "unnamed parameters: the wrapper body is printed as `f(, )` and does not compile",
     "shadow": "a parameter named like the generator's own binder (`f`, `err`) captures it: the wrapper does not compile",
     "dup": "uncurry merges outer and inner parameter lists whose names clash (also via its own innerParam_<i>/param_<i> renaming): duplicate parameter, does not compile",
+    "void": "a wrapped function WITHOUT results is forwarded as `return f(...)` by curry, uncurry, flip and apply: `f(...) (no value) used as value`, does not compile",
     "zero": "derive.Zero prints `nil` as the zero value of a named basic type, struct or array: the helper does not compile",
     "emptylhs": "compose prints `, err0 :=` / `return , err0` for a stage without non-error results: the helper does not compile",
 }
